@@ -169,6 +169,42 @@ def read_neighbors_contract(interp, args, kwargs):
 
 
 READ_NEIGHBORS = "PyMatterSim.neighbors.read_neighbors.read_neighbors"
+REMOVE_PBC = "PyMatterSim.utils.pbc.remove_pbc"
+
+
+def remove_pbc_contract(interp, args, kwargs):
+    """Callee contract of remove_pbc (proved for the real body by contracts/C02.py, clauses a/b for every mask in {0,1}^d):
+    requires det(hmatrix) != 0, ppp_k in {0,1}; ensures row r of the result is sum_k (m_k - rint(m_k) ppp_k) H[k,:] with
+    m = RIJ[r] H^-1 — the term C02.pbc_spec_row."""
+    from contracts import C02
+    from pyvc.state import cur
+    names = ["RIJ", "hmatrix", "ppp"]
+    vals = dict(zip(names, args))
+    vals.update(kwargs)
+    R, H, P = vals["RIJ"], vals["hmatrix"], vals.get("ppp")
+    if P is None or not isinstance(R, A.Arr) or not isinstance(H, A.Arr) or not isinstance(P, A.Arr):
+        raise sv.EngineError("remove_pbc contract: array arguments expected (default ppp is 3-D only)")
+    d = A.conc_dim(H.shape[0], "cell dimension")
+    A.require_dim_eq(H.shape[1], d, "call:remove_pbc:pre(square-cell)")
+    A.require_dim_eq(P.shape[0], d, "call:remove_pbc:pre(ppp-length)")
+    A.require_dim_eq(R.shape[-1], d, "call:remove_pbc:pre(RIJ-columns)")
+    Hm = A.to_list(H)
+    det, G = C02._inv_spec(Hm, d)
+    cur().require(sv.cmp("!=", det, 0), "call:remove_pbc:pre(det!=0)")
+    pm = A.to_list(P)
+    for x in pm:
+        cur().require(sv.or_(sv.cmp("==", x, 0), sv.cmp("==", x, 1)), "call:remove_pbc:pre(ppp-in-{0,1})")
+    rr = R.reader()
+    if R.ndim == 1:
+        row = C02.pbc_spec_row([rr((c,)) for c in range(d)], Hm, G, pm, d)
+        return A.new_arr((1, d), lambda idx: A._pick(row, idx[1]), "float")
+    if R.ndim != 2:
+        raise sv.EngineError("remove_pbc contract: RIJ rank")
+
+    def fn(idx):
+        row = C02.pbc_spec_row([rr((idx[0], c)) for c in range(d)], Hm, G, pm, d)
+        return A._pick(row, idx[1])
+    return A.new_arr((R.shape[0], d), fn, "float")
 
 
 # ================================================================================================
@@ -469,6 +505,196 @@ class PhaseQuotient(_NeighborUnit):
         return _replay_nb(self.qualname, case, clause, model, seed)
 
 
+# ================================================================================================
+# divergence_curl
+
+
+def _cross3(a, b):
+    return [sv.sub(sv.mul(a[1], b[2]), sv.mul(a[2], b[1])), sv.sub(sv.mul(a[2], b[0]), sv.mul(a[0], b[2])),
+            sv.sub(sv.mul(a[0], b[1]), sv.mul(a[1], b[0]))]
+
+
+class DivergenceCurl(Unit):
+    module = MOD
+    qualname = "divergence_curl"
+    prop = "C15"
+    timeout = 30
+    summaries = {READ_NEIGHBORS: read_neighbors_contract, REMOVE_PBC: remove_pbc_contract}
+
+    def cases(self):
+        return ["d=2", "d=3"]
+
+    def setup(self, ctx, case):
+        from contracts import C02
+        d = int(case[2])
+        N = ctx.int("N")
+        ctx.assume(N >= 1)
+        U = ctx.array("u", (N, d), "float", origin="argument vector")
+        R = ctx.array("r", (N, d), "float", origin="snapshot.positions")
+        Hm = C02._mat(ctx, "H", d, "general")
+        H = A.from_nested(Hm, "float")
+        ctx.state.origin[H.sid] = "snapshot.hmatrix"
+        det, G = C02._inv_spec(Hm, d)
+        ctx.assume(sv.cmp("!=", det, 0))
+        pm = [ctx.int(f"ppp_{k}") for k in range(d)]
+        for x in pm:
+            ctx.assume(sv.or_(sv.cmp("==", x, 0), sv.cmp("==", x, 1)))
+        P = A.from_nested(pm, "int")
+        ctx.state.origin[P.sid] = "argument ppp"
+        snap = ctx.obj("PyMatterSim.reader.reader_utils", "SingleSnapshot",
+                       dict(timestep=0, nparticle=N, particle_type=None, positions=R, boxlength=None, boxbounds=None, realbounds=None, hmatrix=H))
+        return [snap, U, P, "neighborlist.dat"], {}, dict(d=d, N=N, U=U, R=R, Hm=Hm, G=G, pm=pm, watch=[U.sid, R.sid, H.sid, P.sid])
+
+    def clause_names(self, case):
+        names = ["shape", "a:div_i=mean_j(D_ij.(u_j-u_i))", "frame:inputs-not-written"]
+        if case == "d=3":
+            names.append("b:curl_i=mean_j(D_ij x (u_j-u_i))")
+        else:
+            names.append("b:2D-returns-divergence-only")
+        return names
+
+    def ensures(self, ctx, case, inp, out):
+        from contracts import C02
+        d, N, U, R = inp["d"], inp["N"], inp["U"], inp["R"]
+        nbi = _nbinfo(ctx)
+        res = out.value
+        if d == 2:
+            div, curl = res, None
+            yield "b:2D-returns-divergence-only", isinstance(res, A.Arr)
+        else:
+            ok = isinstance(res, tuple) and len(res) == 2
+            div, curl = (res if ok else (None, None))
+        ok = isinstance(div, A.Arr) and div.ndim == 1 and A.dim_eq_syntactic(div.shape[0], N) and nbi is not None
+        if d == 3:
+            ok = ok and isinstance(curl, A.Arr) and curl.ndim == 2 and A.dim_eq_syntactic(curl.shape[0], N) and A.dim_eq_syntactic(curl.shape[1], 3)
+        yield "shape", bool(ok)
+        if not ok:
+            return
+        ur, rr = U.reader(), R.reader()
+        p = ctx.int("p")
+        cn = nbi["cn"](p)
+
+        def D(k):       # minimum image of R_j - R_i, j = neighbour k of p
+            j = _nb_index(nbi, p, k)
+            return C02.pbc_spec_row([sv.sub(rr((j, c)), rr((p, c))) for c in range(d)], inp["Hm"], inp["G"], inp["pm"], d)
+
+        def dU(k):
+            j = _nb_index(nbi, p, k)
+            return [sv.sub(ur((j, c)), ur((p, c))) for c in range(d)]
+        inr = sv.and_(sv.cmp(">=", p, 0), sv.cmp("<", p, N), sv.cmp(">=", cn, 1))
+        want = sv.div(Sum(0, cn, lambda k: _dot(D(k), dU(k))), cn)
+        yield "a:div_i=mean_j(D_ij.(u_j-u_i))", sv.implies(inr, sv.cmp("==", div.get((p,)), want))
+        if d == 3:
+            goals = []
+            for c in range(3):
+                wc = sv.div(Sum(0, cn, lambda k, c=c: _cross3(D(k), dU(k))[c]), cn)
+                goals.append(sv.cmp("==", curl.get((p, c)), wc))
+            yield "b:curl_i=mean_j(D_ij x (u_j-u_i))", sv.implies(inr, sv.and_(*goals))
+        stores = [e for e in out.state.events if e[0] == "store" and e[1] in inp["watch"]]
+        yield "frame:inputs-not-written", len(stores) == 0
+
+    def replay(self, case, clause, model, seed):
+        return _replay_divcurl(case, clause, model, seed)
+
+
+def _replay_divcurl(case, clause, model, seed):
+    import importlib
+    import os
+    import random
+    import shutil
+    import tempfile
+
+    import numpy as np
+    V = importlib.import_module(MOD)
+    RU = importlib.import_module("PyMatterSim.reader.reader_utils")
+    d = int(case[2])
+    rng = random.Random(seed)
+    tmp = tempfile.mkdtemp(prefix="pyvc-c15-")
+    path = os.path.join(tmp, "neighborlist.dat")
+    tried = 0
+    try:
+        for k in range(150):
+            first = k == 0 and model.get("N") is not None
+            if first:
+                N = max(1, min(int(_fr(model.get("N"), 3)), 30))
+                u = _arr_from_model(model, "u", (N, d), rng)
+                r = _arr_from_model(model, "r", (N, d), rng, 0.0, 6.0)
+            else:
+                N = rng.choice([1, 2, 3, 5, 9, 20])
+                r = np.array([[rng.uniform(0, 6) for _ in range(d)] for _ in range(N)])
+                u = np.array([[rng.uniform(-2, 2) for _ in range(d)] for _ in range(N)])
+                if k % 3 == 1:                                    # linear field u = A r (no wrap: open boundaries)
+                    Am = np.array([[rng.uniform(-1, 1) for _ in range(d)] for _ in range(d)])
+                    u = r @ Am.T
+            H = np.zeros((d, d))
+            for a in range(d):
+                for b in range(d):
+                    v = _fr(model.get(f"H_{a}{b}")) if first else None
+                    if v is None:
+                        v = rng.uniform(5, 8) if a == b else (rng.uniform(-1.5, 1.5) if (b < a and k % 2) else 0.0)
+                    H[a, b] = v
+            if abs(np.linalg.det(H)) < 1e-6:
+                continue
+            ppp = np.array([int(_fr(model.get(f"ppp_{a}"), 1)) if first else rng.randint(0, 1) for a in range(d)])
+            ppp = np.clip(ppp, 0, 1)
+            if not first and k % 3 == 1:
+                ppp[:] = 0
+            lists = _neighbors_from_model(model, N, rng, first)
+            _write_neighbor_file(path, lists)
+            snap = RU.SingleSnapshot(timestep=0, nparticle=N, particle_type=np.ones(N, dtype=int), positions=r.copy(),
+                                     boxlength=np.abs(np.diag(H)).copy(), boxbounds=np.column_stack([np.zeros(d), np.abs(np.diag(H))]),
+                                     realbounds=None, hmatrix=H.copy())
+            keep_u, keep_r = u.copy(), r.copy()
+            tried += 1
+            inputs = {"positions": keep_r.tolist(), "vector": keep_u.tolist(), "hmatrix": H.tolist(), "ppp": ppp.tolist(), "neighbors": lists}
+            try:
+                got = V.divergence_curl(snap, u, ppp, path)
+            except Exception as ex:
+                return {"ran": True, "failed": True, "searched": tried, "from_model": first, "inputs": inputs, "detail": f"raises {type(ex).__name__}: {ex}"}
+            G = np.linalg.inv(H)
+            bad = None
+            if d == 2:
+                if isinstance(got, tuple):
+                    bad = "2-D call returned a tuple, expected the divergence array only"
+                div, curl = got, None
+            else:
+                if not (isinstance(got, tuple) and len(got) == 2):
+                    bad = "3-D call did not return (divergence, curl)"
+                div, curl = got if bad is None else (None, None)
+            if bad is None:
+                near_tie = False
+                for i in range(N):
+                    sd, sc = 0.0, np.zeros(3)
+                    for j in lists[i]:
+                        rij = keep_r[j] - keep_r[i]
+                        m = rij @ G
+                        if np.any(np.abs(np.abs(m - np.floor(m)) - 0.5) < 1e-7):
+                            near_tie = True
+                        m = m - np.rint(m) * ppp
+                        D = m @ H
+                        du = keep_u[j] - keep_u[i]
+                        sd += float(np.dot(D, du))
+                        if d == 3:
+                            sc += np.array([D[1] * du[2] - D[2] * du[1], D[2] * du[0] - D[0] * du[2], D[0] * du[1] - D[1] * du[0]])
+                    if near_tie:
+                        break
+                    cn = len(lists[i])
+                    tol = 1e-8 * (1 + abs(sd) / cn + np.abs(H).max() * np.abs(keep_u).max())
+                    if abs(float(div[i]) - sd / cn) > tol:
+                        bad = f"divergence[{i}] = {float(div[i])!r}, neighbour average of D_ij.(u_j-u_i) = {sd / cn!r}"
+                        break
+                    if d == 3 and np.any(np.abs(np.asarray(curl[i], dtype=float) - sc / cn) > tol):
+                        bad = f"curl[{i}] = {np.asarray(curl[i]).tolist()}, neighbour average of D_ij x (u_j-u_i) = {(sc / cn).tolist()}"
+                        break
+            if bad is None and not (np.array_equal(keep_u, u) and np.array_equal(keep_r, snap.positions) and np.array_equal(H, snap.hmatrix)):
+                bad = "an input array was modified"
+            if bad:
+                return {"ran": True, "failed": True, "searched": tried, "from_model": first, "inputs": inputs, "detail": bad}
+    finally:
+        shutil.rmtree(tmp, ignore_errors=True)
+    return {"ran": True, "failed": False, "searched": tried, "detail": "real code satisfies every clause on the model inputs and the seeded inputs"}
+
+
 def _replay_nb(qualname, case, clause, model, seed):
     """replay of local_vector_alignment / phase_quotient on the real code with a real neighbour file"""
     import importlib
@@ -539,7 +765,7 @@ def _replay_nb(qualname, case, clause, model, seed):
     return {"ran": True, "failed": False, "searched": tried, "detail": "real code satisfies every clause on the model inputs and the seeded inputs"}
 
 
-UNITS = [ParticipationRatio(), LocalAlignment(), PhaseQuotient()]
+UNITS = [ParticipationRatio(), LocalAlignment(), PhaseQuotient(), DivergenceCurl()]
 
 MANIFEST = {
     "text": "",
